@@ -9,7 +9,10 @@ if ! git apply --check "$patch" 2>/dev/null; then echo "$(basename "$(dirname "$
 git apply "$patch"
 trap 'git -C /repo checkout -- . ; git -C /repo clean -fdq -- lalrpop lalrpop-util 2>/dev/null' EXIT
 for p in "$@"; do
+  # the evidence file of a mutant run must not replace the committed one
+  cp -f "/verif/evidence/$p.json" "/verif/evidence/.$p.json.keep" 2>/dev/null
   out="$(cd /verif && ./check "$p" "$tier" 2>&1)"; rc=$?
+  [ -f "/verif/evidence/.$p.json.keep" ] && mv -f "/verif/evidence/.$p.json.keep" "/verif/evidence/$p.json"
   first="$(echo "$out" | grep -E "^VIOLATION|HARNESS-ERROR|^error" | head -1)"
   key="$(echo "$out" | grep -E "^  (invariant=.* )?key=" | head -3 | tr '\n' ' ')"
   n="$(echo "$out" | grep -c "^VIOLATION")"
